@@ -104,6 +104,15 @@ class C17(PropertyCheck):
             st[1 + (37 * k) % 256] = w
             st[256] = R.CODEC_WORDS[(k + 1) % len(R.CODEC_WORDS)]
             add(w, [w] + [None] * 255 + [w], [st], "codec-edge")
+        # different strings with equal FxHash (seed C18-10): both members in the clip table, in one set, across sets, as labels
+        for k, (x, y) in enumerate(R.FX_PAIRS):
+            for suf in (b"", b"_cl0n"):
+                a, b = x + suf, y + suf
+                t = [None] * 257
+                t[k], t[256 - k] = a, b
+                s1 = blank_set(a); s1[1 + k] = b; s1[256] = a
+                s2 = blank_set(b); s2[33] = a
+                add(a, t, [s1, s2], "fx-collision")
         # table: first / last entry alone; many sets in one file (labels repeated, interleaved empty sets)
         add(None, [b"first"] + [None] * 256, [], "table-edges")
         add(None, [None] * 256 + [b"last"], [set_with(rng, [256])], "table-edges")
